@@ -22,9 +22,9 @@ SHARD = 90
 RULE = ('cases = (kind in {K.T.T, primes of K.T for all subsets, lattice(K.T) vs lattice(K).T, ~~K with names, '
         'row/column permutation + renaming, monotone lattice}, table <= 6x6, back-end, exact algorithm '
         'CbO/Lindig/default, for the lattice kinds also Sofia with a non-binding limit and ConceptLattice(shuffled '
-        'concept list), followed by a recorded warm-up history of 0-3 order queries before .T is taken; the four '
-        'relation dictionaries (children, parents, descendants, ancestors) of every lattice are compared with the '
-        'spec); non-trivial = the table has two different rows and is not constant, the '
+        'concept list), followed by a recorded warm-up history of 0-3 order queries or remove+add(no fill) steps '
+        'before .T is taken; the four relation dictionaries, the leq_elements matrix and <= on the concept objects '
+        'of every lattice are compared with the spec; relabelling also through K[row_perm, col_perm]); non-trivial = the table has two different rows and is not constant, the '
         'permutation is not the identity (relabel), some attribute name is "not "-prefixed (complement)')
 EXHAUSTIVE = {'thorough': 'all tables of shape <= 3x3 (h,w in 1..3) x 3 back-ends x {K.T.T, primes for all '
                           'subsets, ~~K} and x {CbO, Lindig (= the default)} x {lattice transposition, monotone lattice}'}
